@@ -18,6 +18,8 @@ from .C01 import _alloc_family
 
 def run(model, rep, tier):
     rep.explanation = __doc__.strip()
+    from ._common import caches_for
+    caches_for(model, rep, 'C06')
     rep.not_decided = 'the tracer identities themselves (Lsv = -L0vv, L1vv = 0, 0 <= Lss <= L0vv)'
     rep.rule('keys-are-parameters', 'returned keys are preene2betafree parameters and carry the array of the same name')
     rep.rule('neutral-solute', 'solute / interaction prefactors are ones, energies zeros, with the documented sizes')
